@@ -2547,6 +2547,15 @@ impl Default for EnvironmentData {
 pub struct JsMapKey(pub JsValue);
 
 impl JsMapKey {
+    /// The key under which a value is STORED in a Map or Set: -0 is normalised to +0
+    /// (Map.prototype.set / Set.prototype.add, ECMA-262 24.1.3.9 step 5)
+    pub fn for_insert(value: JsValue) -> Self {
+        match value {
+            JsValue::Number(n) if n == 0.0 => JsMapKey(JsValue::Number(0.0)),
+            other => JsMapKey(other),
+        }
+    }
+
     /// Check SameValueZero equality (used by Map/Set for key comparison)
     fn same_value_zero(a: &JsValue, b: &JsValue) -> bool {
         match (a, b) {
